@@ -64,3 +64,23 @@ claim("C15", "loop-free segment analysis of console.c over LLVM IR (guards on cu
       "Decides the memory-safety and protocol clauses of C15 for every character stream: the line cursor never leaves the line buffer and buf[79] stays NUL; the line is NUL-terminated at the cursor when tokenised (backspace/abort included); argc/argv stay in bounds (inductive invariant); constant subscripts stay inside their arrays; registration changes nothing when the table is full, scans stop at the NULL sentinel, lookup is an exact match; tokenise -> find -> spawn -> prompt order; all three delivery routes feed the same ring before waking/running the console.",
       "What the tokeniser yields for every stream (quoting and splitting semantics) is NOT decided. LP64 layout only. The command table's sentinel is a data invariant that is assumed. Trusted: clang 14 front end, ir2json, segment enumerator.",
       "DESIGN.md section 2 C15")
+claim("C01", "who-may-call rules with resolved queue arguments, membership typestate at queue insertions, call-order on all paths of the scheduler pass, per-state effect check, guard-set extraction, call-graph re-entrancy check (LLVM IR of all library units)",
+      "other",
+      "Decides the code-shape clauses of C01 on every path: one dispatch per pass; FIFO discipline of the run queue and sorted-only insertion into the timer queue; evidence at every insertion that the fibre is on neither queue (so reasons coalesce and nodes are never doubly linked); drain -> re-queue/reset -> expire -> pop -> dispatch order; reset exactly on exit/fail and re-queue exactly on yield; the four fast-path guards; fibre_self/current; fibre_kill's drain, removals and result; arrival order of drained requests; plus the expiry predicate and timer order of C02.",
+      "Equality with the FIFO model over all histories is NOT decided (it also needs list.c to be a sequence, C09). One listed exception in the membership rule (fibre_timeout, covered by the property's own scope). Trusted: clang 14 front end, ir2json, path/segment enumerator, call-effect table for list/messageq predicates.",
+      "DESIGN.md section 2 C01")
+claim("C02", "type-like dataflow of time values over path expressions (no ordered comparison of times, signed differences only) + extraction of the difference functions, expiry predicates and comparator tests",
+      "other",
+      "Decides that every comparison of times in fibre.c/util.c/list.c/fibre_posix.c is a signed cyclic difference (so behaviour is translation-invariant, hence identical across the 32-bit wrap), that fibre_timeout and handle_timerq expire exactly on (due - now) <= 0, that the timer queue is inserted into sorted and stably, and (via C01's membership rules) that running or killing a fibre cancels its pending timeout.",
+      "The history-level statement (runnable in the first pass with t at or after d) is NOT decided. Scope: due times within 2^31 ticks. Trusted as for C01.",
+      "DESIGN.md section 2 C02")
+claim("C03", "path analysis of the returned expression and its dominating emptiness guards; constant from fibre.h via a witness TU",
+      "other",
+      "Decides on every path: the returned value is now, the timer head's due time or now + FIBRE_UNBOUNDED_SLEEP (< 2^31); a value later than now is returned only with the atomic queue and the run queue empty (and the timer queue empty for the unbounded case); those tests are made after the dispatch and are the last thing the pass does; the timer head is the earliest due time (C02 T2/T4); the POSIX main loop sleeps on a cyclic difference.",
+      "Interrupt timing beyond 'the emptiness tests are the final step' is NOT decided (see C06). Trusted as for C01.",
+      "DESIGN.md section 2 C03")
+claim("C06", "effect analysis over the call graph (who-may-touch the scheduler's main-context state from the interrupt-callable closure) + publish-before-wake / drain-before-touch ordering on all paths + re-use of C04/C07/C01/C03 rules",
+      "other",
+      "Decides: the interrupt-callable closure never touches the scheduler lists, current or state; fibre_run_atomic publishes before reporting success and fibre_eventq_send always wakes after publishing; the main-context entry points drain before touching a list; the drain is complete and reads slots before releasing them; the message-queue flag protocol cannot erase a send; the fast path and the wake-up time both account for the atomic queue.",
+      "Absence of lost or duplicated wake-ups under every placement of interrupts is NOT decided (interleavings cannot be enumerated statically); these are necessary conditions with a concrete failing placement when broken. Trusted as for C01.",
+      "DESIGN.md section 2 C06")
